@@ -580,6 +580,12 @@ theorem ll_helpers_implement_ring_ops {l : LL K V} {cells : Cells K V} (h : Rep 
     subst this
     simp [LL.evictLast, hnx]
 
+/-- the hypothesis of `ll_helpers_implement_ring_ops` is satisfiable by a non-empty list: two links added to
+    a new list -/
+example : ∃ cells : Cells Nat Nat, Rep (((LL.new : LL Nat Nat).addFront 1 5).addFront 2 6) cells ∧
+    ringOf cells = [(1, 5), (2, 6)] :=
+  ⟨_, (Rep.new.addFront 5 rfl).addFront 6 (by decide), rfl⟩
+
 /-- `copy()` at pointer level: walking the source's links from its anchor and adding a fresh link per
     item to a new list gives a well-formed list with the same items in the same (eviction) order; the
     source's memory is not written -/
